@@ -8,6 +8,7 @@ mod drive;
 mod model;
 mod obj;
 mod pair;
+mod probe;
 
 use model::*;
 use obj::*;
@@ -456,6 +457,17 @@ fn main() {
         }
         i += 1;
     }
+    if args.iter().any(|a| a == "--probe") {
+        // compile-time acceptance table of checked_send, one node per (role, packet type)
+        let root_dig = Value::Null;
+        for c in probe::calls() {
+            let key = serde_json::to_string(&c).unwrap();
+            let body = json!({"who": "x", "call": c, "out": [], "obs": {"vacancy": -1, "stored": [], "qos2": [], "ver": "undet"},
+                              "dig": root_dig, "panic": false, "msg": "", "shadow": "none", "outF": [],
+                              "obsF": {"vacancy": -1, "stored": [], "qos2": [], "ver": "undet"}, "panicF": false});
+            let _ = trie.child(0, &key, body);
+        }
+    }
     let mut i = 0;
     while i < args.len() {
         if args[i] == "--pair-edges" && i + 1 < args.len() {
@@ -480,8 +492,12 @@ fn main() {
     }
     // give the root a digest of the right shape (copy of its first child's) so that records are uniform
     if trie.nodes.len() > 1 {
-        let d = trie.nodes[1].2.get("dig").cloned().unwrap_or(Value::Null);
-        trie.nodes[0].2.insert("dig".into(), d);
+        let d = trie.nodes.iter().find_map(|n| n.2.get("dig").filter(|d| !d.is_null()).cloned()).unwrap_or(Value::Null);
+        for n in trie.nodes.iter_mut() {
+            if n.2.get("dig").map(|x| x.is_null()).unwrap_or(true) {
+                n.2.insert("dig".into(), d.clone());
+            }
+        }
     }
     if let Err(e) = trie.write(&out) {
         eprintln!("write {out}: {e}");
